@@ -133,6 +133,51 @@ theorem apply_final_exact (s : Syncer) (st : KState) (hint : AMap SvcKey Nat) (f
   rw [apply_dp, apply_phases, schedule_ok _ _ _ hok']
   exact fullWrites_exact _ _
 
+/-! ### What a frontend lists (partial: the block of ONE service right after it is written)
+
+That later services of the same sync do not disturb the block needs pairwise distinct service IDs
+and pairwise distinct frontend keys ("we assume that k8s provide us with no duplicities",
+syncer.go); that composition is NOT proved here — it is covered by the correspondence run and the
+harness's final oracle on the real maps.  Hence the `_partial` suffix. -/
+
+/-- right after `applySvc` wrote a service (ID `id`, endpoints `eps`): its cluster-IP frontend
+carries `id`, the number of ready endpoints and of local ready endpoints, and backend `i` is the
+`i`-th ready endpoint in the order local first. -/
+theorem service_block_exact_partial (b : Bld) (skey : SvcKey) (svc : Svc) (id : Nat) (eps : List Ep) :
+    (∃ v, (applySvcWith b skey svc id eps).des.F.get (zeroKey svc) = some v ∧ v.id = id ∧
+      v.count = (readyOrdered eps).length ∧ v.lcl = localReady eps ∧ v.aff = affOf svc) ∧
+    ∀ i (hi : i < (readyOrdered eps).length),
+      (applySvcWith b skey svc id eps).des.B.get ⟨id, i⟩ = some ⟨(readyOrdered eps)[i].ip, (readyOrdered eps)[i].port⟩ := by
+  unfold applySvcWith updateService
+  constructor
+  · cases skey.extra <;> simp [writeSvc, AMap.get_set_self]
+  · intro i hi
+    have := writeBackends_get b.des.B id 0 (readyOrdered eps) i hi
+    simp only [Nat.zero_add] at this
+    cases skey.extra <;> simpa [writeSvc] using this
+
+theorem mem_readyOrdered (eps : List Ep) (e : Ep) : e ∈ readyOrdered eps ↔ e ∈ eps ∧ e.ready = true := by
+  simp only [readyOrdered, List.mem_append, List.mem_filter, Bool.and_eq_true, Bool.not_eq_true']
+  constructor
+  · rintro (⟨h, _, h2⟩ | ⟨h, _, h2⟩) <;> exact ⟨h, h2⟩
+  · rintro ⟨h, h2⟩
+    cases hl : e.isLocal
+    · exact Or.inr ⟨h, rfl, h2⟩
+    · exact Or.inl ⟨h, rfl, h2⟩
+
+theorem readyOrdered_local_first (eps : List Ep) (i : Nat) (hi : i < (readyOrdered eps).length) :
+    (readyOrdered eps)[i].isLocal = decide (i < localReady eps) := by
+  unfold readyOrdered localReady at *
+  by_cases h : i < (eps.filter (fun e => e.isLocal && e.ready)).length
+  · rw [List.getElem_append_left h]
+    have := List.getElem_mem h
+    simp only [List.mem_filter, Bool.and_eq_true] at this
+    simp [h, this.2.1]
+  · rw [List.getElem_append_right (by omega)]
+    have hm := List.getElem_mem (l := eps.filter (fun e => !e.isLocal && e.ready))
+      (n := i - (eps.filter (fun e => e.isLocal && e.ready)).length) (by simp at hi; omega)
+    simp only [List.mem_filter, Bool.and_eq_true, Bool.not_eq_true'] at hm
+    simp [h, hm.2.1]
 /-! ### Non-vacuity -/
 
 /-- a non-trivial consistent state: one frontend with two backends, one black-hole frontend. -/
@@ -175,9 +220,12 @@ example : exSyncer.dp.B.get ⟨0, 0⟩ = some ⟨101, 8080⟩ := by decide +kern
 def exSvc2 : Svc := { exSvc with extIPs := [] }
 def exState2 : KState := { svcs := [("n/s", exSvc2)], eps := [("n/s", [exEp 100 false true])], host := "h", zone := "z" }
 
-/-- the second sync writes in all four phases: 1 frontend deleted, 1 backend rewritten,
-2 frontends updated, 1 backend deleted. -/
-example : (exSyncer.apply exState2 [] 0).phases.map List.length = [1, 1, 2, 1] := by decide +kernel
+/-- the second sync writes in all four phases: 1 frontend deleted, 1 backend written,
+2 frontends updated (the changed service gets a new ID), 2 old backends deleted. -/
+example : (exSyncer.apply exState2 [] 0).phases.map List.length = [1, 1, 2, 2] := by decide +kernel
+
+example : readyOrdered [exEp 100 false true, exEp 101 true true, exEp 102 false false] =
+    [exEp 101 true true, exEp 100 false true] := by decide
 
 /-- a reachable mid-update state (one write of phase 1 done). -/
 example : ∃ σ, Reach ⟨[], []⟩ exDP σ ∧ σ.dp.F.length = 1 :=
